@@ -221,3 +221,59 @@ func (c *Ctx) markRoles() {
 		}
 	}
 }
+
+// stageFuncs: root plus the unexported module functions that are called only from root or from other stages of
+// it (a function split into stages): the places where "the code of root" may live.
+func (c *Ctx) stageFuncs(root *ssa.Function) []*ssa.Function {
+	if root == nil {
+		return nil
+	}
+	callers := map[*ssa.Function]map[*ssa.Function]bool{}
+	asValue := map[*ssa.Function]bool{}
+	for _, f := range c.moduleFuncs() {
+		instrs(f, func(in ssa.Instruction) {
+			var ops []*ssa.Value
+			for _, op := range in.Operands(ops) {
+				if g, ok := (*op).(*ssa.Function); ok {
+					if ci, isCall := in.(ssa.CallInstruction); isCall && ci.Common().Value == ssa.Value(g) {
+						if callers[g] == nil {
+							callers[g] = map[*ssa.Function]bool{}
+						}
+						owner := f
+						for owner.Parent() != nil {
+							owner = owner.Parent()
+						}
+						callers[g][owner] = true
+					} else {
+						asValue[g] = true
+					}
+				}
+			}
+		})
+	}
+	in := map[*ssa.Function]bool{root: true}
+	out := []*ssa.Function{root}
+	for changed := true; changed; {
+		changed = false
+		for g, cs := range callers {
+			if in[g] || asValue[g] || g.Blocks == nil || !c.inModule(g) || g.Pkg != root.Pkg || symNoInline[g] {
+				continue
+			}
+			if n := g.Name(); n == "" || (n[0] >= 'A' && n[0] <= 'Z') {
+				continue
+			}
+			only := len(cs) > 0
+			for caller := range cs {
+				if !in[caller] {
+					only = false
+				}
+			}
+			if only {
+				in[g] = true
+				out = append(out, g)
+				changed = true
+			}
+		}
+	}
+	return out
+}
